@@ -2725,3 +2725,60 @@ func ncbiNumerals(c *Ctx) {
 	}
 }
 
+
+// fastaLengthSweep: EVERY sequence length from 0 up to a bound (not a sample of "interesting" sizes): the bytes
+// Write produces against the layout stated directly ('>' name, then the sequence 80 bytes to a line).  A writer
+// that collects lines in a buffer of its own goes wrong only at the lengths where a line ends exactly at the end
+// of that buffer -- lengths nobody can guess -- and the C01 round trip holds "for every record".
+func fastaLengthSweep(c *Ctx) {
+	top := 34000
+	if c.thor {
+		top = 72000
+	}
+	pat := make([]byte, top)
+	for i := range pat {
+		pat[i] = "ACGTNacgtn"[(i*7+i/80)%10]
+	}
+	name := []byte("sweep")
+	var got bytes.Buffer
+	want := make([]byte, 0, top+top/80+16)
+	bad, badLen, cur := "", -1, 0
+	st := safe(func() string {
+		for L := 0; L <= top; L++ {
+			cur = L
+			got.Reset()
+			err := (&fasta.Fasta{Name: name, Sequence: pat[:L:L]}).Write(&got)
+			want = append(want[:0], '>')
+			want = append(want, name...)
+			want = append(want, '\n')
+			for i := 0; i < L; i += 80 {
+				want = append(want, pat[i:min(i+80, L)]...)
+				want = append(want, '\n')
+			}
+			if err != nil {
+				bad, badLen = "Write into a bytes.Buffer returned an error: "+err.Error(), L
+				return ""
+			}
+			if !bytes.Equal(got.Bytes(), want) {
+				bad, badLen = fmt.Sprintf("Write produced %d bytes that are not '>'name, newline, the sequence 80 to a line (%d bytes expected)", got.Len(), len(want)), L
+				return ""
+			}
+			if L%997 == 0 || L == top {
+				// the pre-computed length of MarshalText (it panics on a mismatch) at a spread of lengths too
+				mt, merr := (&fasta.Fasta{Name: name, Sequence: pat[:L:L]}).MarshalText()
+				if merr != nil || !bytes.Equal(mt, want) {
+					bad, badLen = "MarshalText differs from the stated layout", L
+					return ""
+				}
+			}
+		}
+		return ""
+	})
+	oracle := ""
+	if st == "PANIC" {
+		oracle = fmt.Sprintf("fasta: sequence length %d: Write/MarshalText panicked", cur)
+	} else if bad != "" {
+		oracle = fmt.Sprintf("fasta: sequence length %d: %s", badLen, bad)
+	}
+	c.add(Case{Kind: "length-sweep", Nontrivial: true, Oracle: oracle, Note: fmt.Sprintf("fasta Write for every sequence length 0..%d against the stated layout", top)})
+}
